@@ -36,6 +36,12 @@ INFO = {
  "C15r2-exclude-only-lowercase": ("C15", "files are checked against the exclude patterns only if their name ends in lower-case .cmake", "an excluded CMake file with a mixed-case extension"),
  "C16r2-cwd-default-argument": ("C16", "config_template(cwd=os.getcwd()) default argument: evaluated once at import", "the process changes directory between `import cminx` and main(), with a relative output directory"),
  "C17r2-case-insensitive-sort": ("C17", "per-directory sort made case-insensitive (key=str.lower): not a total order", "two entries of one directory differing only in letter case + a different listing order"),
+ "C04r2-expandtabs": ("C04", "clean_doc_lines expands tabs (expandtabs(4)) before stripping the block indent", "a tab inside the doc text + a block indentation that is not a multiple of 4"),
+ "C07r2-module-body-strip": ("C07", "enterDocumented_module strips every body line (leading indentation lost)", "a module doccomment whose body has an indented part (nested directive body, literal block, list continuation)"),
+ "C10r2-empty-string-default": ("C10", "default rendered as `self.value or fallback`", "set(VAR \"\"): the empty string is shown as None"),
+ "C11r2-consumed-flag": ("C11", "'already handled' bookkeeping as one boolean flag cleared only in the catch-all branch (two cooperating sites)", "a documented set()/generic command directly followed by an undocumented ct_add_test/ct_add_section/add_test: that test is dropped"),
+ "C19r2-realpath-input": ("C19", "cminx_gen_rst resolves the input with get_filename_component(... REALPATH) before forwarding it", "an input path that is (or contains) a symbolic link"),
+ "C20r2-stale-str-cache": ("C20", "RSTWriter.__str__ caches its text keyed by heading object and element counts", "serialise, then mutate a descendant (counts of the ancestor unchanged), then serialise again"),
  "C18r2-sort-by-splitext": ("C18", "files sorted by (stem, extension) instead of by name", "a directory with names like Foo.cmake and Foo-x.cmake: stdout page order is not the sorted name order"),
 }
 
